@@ -67,6 +67,18 @@ pub fn rdata_modelled(d: &RData) -> bool {
     )
 }
 
+/// does the message hold an SVCB / HTTPS record with a `port` parameter? (the class predicate of
+/// C02-F3 looks at the original octets through the length comparison in the caller)
+fn svcb_port_has_trailing(m: &Message) -> bool {
+    use hickory_proto::rr::rdata::svcb::{SvcParamKey, SVCB};
+    let has = |s: &SVCB| s.svc_params.iter().any(|(k, _)| *k == SvcParamKey::Port);
+    m.answers.iter().chain(m.authorities.iter()).chain(m.additionals.iter()).any(|r| match &r.data {
+        RData::SVCB(s) => has(s),
+        RData::HTTPS(h) => has(&h.0),
+        _ => false,
+    })
+}
+
 pub fn msg_modelled(m: &Message) -> bool {
     m.answers.iter().chain(m.authorities.iter()).chain(m.additionals.iter()).all(|r| rdata_modelled(&r.data))
 }
@@ -423,7 +435,20 @@ pub fn run_line(t: &[&str]) -> Option<MsgVerdict> {
                             // upstream fuzz oracle 2 (fuzz_targets/preserve_rdata.rs)
                             match catch(|| crate::props::fuzzoracle::preserve_rdata(&bytes, &b)) {
                                 Ok(Ok(())) => {}
-                                Ok(Err(e)) => fails.push(format!("upstream oracle preserve_rdata.rs: {e}")),
+                                Ok(Err(e)) => {
+                                    // KNOWN FINDING C02-F3: `SvcParamValue::read` takes the first two
+                                    // octets of a `port` value and ignores the rest of the value, so
+                                    // the value round-trips and the RDATA octets do not
+                                    if fails.is_empty()
+                                        && d1 == d2
+                                        && b.len() < bytes.len()
+                                        && (e.contains("(type 64)") || e.contains("(type 65)"))
+                                        && svcb_port_has_trailing(&m)
+                                    {
+                                        class = "C02.SvcbPortTrailingOctets";
+                                    }
+                                    fails.push(format!("upstream oracle preserve_rdata.rs: {e}"))
+                                }
                                 Err(p) => fails.push(format!("upstream oracle preserve_rdata.rs panicked: {p}")),
                             }
                             (format!("ok {} {} {}", b.len(), d.index(), d2), 0)
